@@ -251,7 +251,7 @@ static void specials() {
 }
 static void section_gen() {
     Rng g(seed_from_env() * 7919 + 1010);
-    const int it = g_thorough ? 300 : 30;
+    const int it = g_thorough ? 200 : 30;
     gen_eig<2>(g, it); gen_eig<3>(g, it); gen_eig<4>(g, it);
     static const int KS[] = { 1, 2, 3, 5, 8, 17, 64, 257 };
     const int nk = g_thorough ? 8 : 7, rep = g_thorough ? 12 : 2;
